@@ -278,6 +278,10 @@ pub struct Run<'a> {
     pub interleaved_handlers: u64,
     pub solves_acked: Vec<(usize, String, String, u64)>,
     pub o16: oracle16::State,
+    /// schedule as (actor, action) records, for the solo re-execution (O5)
+    pub actions: Vec<crate::solo::ActRec>,
+    /// per client: (request ordinal, status, canonical body) of every scripted request
+    pub obs: Vec<crate::solo::Obs>,
 }
 
 fn tag_client(tag: &str) -> Option<usize> {
@@ -327,7 +331,12 @@ impl<'a> Run<'a> {
     }
 
     fn build_request(&self, c: usize, rq: &Rq) -> actix_http::Request {
-        let jar = &self.cl[c].jar;
+        build_request_with(&self.cl[c].jar, rq)
+    }
+}
+
+pub fn build_request_with(jar: &Option<String>, rq: &Rq) -> actix_http::Request {
+    {
         match rq {
             Rq::Register { name, pw } => req_json("POST", "/users/register", jar, Some(serde_json::json!({"username": name, "password": pw}))),
             Rq::Login { name, pw } => req_json("POST", "/users/login", jar, Some(serde_json::json!({"username": name, "password": pw}))),
@@ -344,6 +353,9 @@ impl<'a> Run<'a> {
             Rq::ForgedList => req_json("GET", "/adf/", &Some("Zm9yZ2VkLWNvb2tpZS12YWx1ZQ%3D%3D".into()), None),
         }
     }
+}
+
+impl<'a> Run<'a> {
 
     // ---- database events ---------------------------------------------------------------
     fn process_events(&mut self) {
@@ -506,6 +518,8 @@ impl<'a> Run<'a> {
         }
         self.log.u64(c as u64).u64(resp.status as u64).str(&canonical_body(&resp.body));
         self.stats.inc(&format!("resp_{}", resp.status));
+        let req_no_obs: usize = tag.trim_end_matches("+ck").split('#').nth(1).and_then(|x| x.parse().ok()).unwrap_or(0);
+        self.obs[c].push(crate::solo::observe(req_no_obs, resp.status, &resp.body));
         let had_cookie = tag.contains("+ck");
         // O1: no foreign marker in any response
         for d in 0..self.cl.len() {
@@ -879,6 +893,8 @@ async fn run_world(svc_cfg: &Service, case: &SrvCase, dec: Decisions, seed_for_k
         interleaved_handlers: 0,
         solves_acked: Vec::new(),
         o16: oracle16::State::default(),
+        actions: Vec::new(),
+        obs: (0..n).map(|_| Vec::new()).collect(),
     };
     for s in &case.clients {
         for r in s {
@@ -965,6 +981,19 @@ async fn run_world(svc_cfg: &Service, case: &SrvCase, dec: Decisions, seed_for_k
                     run.interleaved_handlers += 1;
                 }
                 last_gate_client = gc;
+                {
+                    let bg = if g.tag.is_none() {
+                        run.w.cont_gate.get(&id).and_then(|tid| {
+                            let cl = run.w.tasks.get(tid)?.client;
+                            let mut mine: Vec<u64> = run.w.tasks.values().filter(|t| t.client == cl).map(|t| t.id).collect();
+                            mine.sort();
+                            mine.iter().position(|x| x == tid)
+                        })
+                    } else {
+                        None
+                    };
+                    run.actions.push(crate::solo::ActRec { client: gc.unwrap_or(usize::MAX - 1), kind: crate::solo::ActKind::Gate { bg_task_ord: bg, outcome } });
+                }
                 run.log.str("gate").u64(id).u64(outcome as u64);
                 run.w.release_gate(id, outcome, &actor).await;
             }
@@ -974,6 +1003,7 @@ async fn run_world(svc_cfg: &Service, case: &SrvCase, dec: Decisions, seed_for_k
                 let req = run.build_request(c, &rq);
                 run.cl[c].pos += 1;
                 run.cl[c].busy = true;
+                run.actions.push(crate::solo::ActRec { client: c, kind: crate::solo::ActKind::Issue });
                 run.log.str("issue").u64(c as u64);
                 run.w.now_ms += 1;
                 tokio::time::advance(std::time::Duration::from_millis(1)).await;
@@ -981,6 +1011,13 @@ async fn run_world(svc_cfg: &Service, case: &SrvCase, dec: Decisions, seed_for_k
                 crate::world::pump().await;
             }
             Act::Release(id) => {
+                if let Some(t) = run.w.tasks.get(&id) {
+                    let cl = t.client;
+                    let mut mine: Vec<u64> = run.w.tasks.values().filter(|t| t.client == cl).map(|t| t.id).collect();
+                    mine.sort();
+                    let ord = mine.iter().position(|x| *x == id).unwrap_or(0);
+                    run.actions.push(crate::solo::ActRec { client: cl, kind: crate::solo::ActKind::Release { task_ord: ord } });
+                }
                 run.log.str("release").u64(id);
                 run.stats.inc("tasks_released");
                 let before_deadline = run.w.tasks.get(&id).map(|t| !t.timed_out).unwrap_or(true);
@@ -991,6 +1028,7 @@ async fn run_world(svc_cfg: &Service, case: &SrvCase, dec: Decisions, seed_for_k
                 }
             }
             Act::Jump => {
+                run.actions.push(crate::solo::ActRec { client: usize::MAX, kind: crate::solo::ActKind::Jump });
                 run.log.str("jump");
                 run.stats.inc("fault_clock_jump_past_deadline_fired");
                 run.w.advance(121_000).await;
@@ -1024,6 +1062,38 @@ async fn run_world(svc_cfg: &Service, case: &SrvCase, dec: Decisions, seed_for_k
     run.stats.add("handler_interleavings_between_db_calls", run.interleaved_handlers);
     run.w.teardown().await;
     names::sim_install(None);
+    // O5: every client again, alone, under the projection of the same schedule
+    if svc_cfg.name == "isolation" && !case.small_names && run.violation.is_none() && run.w.harness_error.is_none() && run.w.hung_task.is_none() && seed_for_key % 2 == 0 {
+        for c in 0..n {
+            if case.clients[c].is_empty() {
+                continue;
+            }
+            run.stats.inc("o5_solo_reexecutions");
+            let alone = crate::solo::solo(case, c, &run.actions, seed_for_key, &|jar, rq| build_request_with(jar, rq)).await;
+            let shared = run.obs[c].clone();
+            let v = match alone {
+                Err(e) => Some(Violation::new("O5-non-interference", "different-database-calls", format!("client {c}: {e}"))),
+                Ok(alone) => {
+                    // whether *another* client's account name exists is the one thing a client
+                    // may legitimately observe about the others (names are unique): a login
+                    // attempt under a foreign name answers 400 with, 404 without that account
+                    let foreign_name_probe = |req_no: usize| -> bool {
+                        matches!(case.clients[c].get(req_no), Some(Rq::Login { name, .. }) if !name.starts_with(&format!("c{c}")))
+                    };
+                    let firstdiff = shared.iter().zip(alone.iter()).position(|(a, b)| a != b && !foreign_name_probe(a.0));
+                    match firstdiff {
+                        Some(i) => Some(Violation::new("O5-non-interference", "history-differs", format!("client {c} request #{} ({:?}): with the other clients present it saw status {} body {}, alone status {} body {}", shared[i].0, case.clients[c].get(shared[i].0), shared[i].1, clip(&shared[i].2), alone[i].1, clip(&alone[i].2)))),
+                        None if shared.len() != alone.len() => Some(Violation::new("O5-non-interference", "history-length-differs", format!("client {c}: {} responses with the others present, {} alone", shared.len(), alone.len()))),
+                        None => None,
+                    }
+                }
+            };
+            if let Some(v) = v {
+                run.viol_client(c, v);
+                break;
+            }
+        }
+    }
     let nontrivial = match svc_cfg.property {
         "C17" => run.interleaved_handlers > 0 || run.concurrent_steps > 0,
         _ => run.w.tasks.len() > 0,
